@@ -19,7 +19,9 @@
      RBF nin nout tc tw g.. | params | X | C            -> OK np= rt= eb= e1= wpd=   (C04Misc.v: rbf_set_gamma / rbf_set / rbf_params / rbf_eval(_batch) / rbf_wpd)
      CMAC nin nout tilings tiles lo hi | params | X | C -> OK np= rt= eb= e1= wpd=   (C04Misc.v: cmac_eval(_batch) / cmac_wpd)
      ENS m (w LIN act off nin nout p..)*m | | X | C     -> OK np=0 rt= eb= e1=       (C04Misc.v: ens_eval_batch / ens_eval over LinearModel members)
-   every other model kind (KEXP; monitored only, not modelled in Coq) -> SKIP *)
+     KEXP / KEXB kern par .. | params | X | C           -> OK np= rt= eb= e1=        (C04Kexp.v: ke_set / ke_params / ke_eval_batch / ke_eval with the
+                                                           kernels kx_lin, kx_poly of C04Kexp.v; the Gaussian kernel is an OCaml closure)
+   every other model kind -> SKIP *)
 open C04_model
 
 let rec nat_of_int n = if n <= 0 then O else S (nat_of_int (n - 1))
@@ -308,6 +310,22 @@ let () =
               let eb = ens_eval_batch z fadd fmul fdiv (nat_of_int !no) members x in
               let e1 = List.map (ens_eval z fadd fmul fdiv (nat_of_int !no) members) x in
               Printf.sprintf "OK np=0 rt= eb=%s e1=%s" (csv (List.concat eb)) (csv (List.concat e1))
+            | "KEXP" | "KEXB" ->
+              (* KEXP kern par bs nb nin nout off basis..  (batches made by createDataFromRange: the model takes ONE batch; by
+                 C04_kexp_blocks the value does not depend on the partition)   KEXB kern par k s_1..s_k nin nout off basis.. *)
+              let kern = i 1 and par = fos spec.(2) in
+              let (sizes, q) = if spec.(0) = "KEXP" then ([i 4], 5) else (List.init (i 3) (fun j -> i (4 + j)), 4 + i 3) in
+              let ni = i q and no = i (q + 1) and off = i (q + 2) <> 0 in
+              let pos = ref (q + 3) in
+              let basis = List.map (fun sz -> List.init sz (fun _ -> let r = List.init ni (fun j -> fos spec.(!pos + j)) in pos := !pos + ni; r)) sizes in
+              let kf = if kern = 0 then kx_lin z fadd fmul
+                else if kern = 1 then (fun u v -> exp (Float.neg par *. List.fold_left2 (fun a p q -> a +. (p -. q) *. (p -. q)) 0.0 u v))
+                else kx_poly z 1.0 fadd fmul (nat_of_int kern) par in
+              let m0 = { ke_basis = basis; ke_nout = nat_of_int no; ke_alpha = []; ke_b = (if off then List.init no (fun _ -> 0.0) else []) } in
+              let m = ke_set m0 params in
+              let eb = ke_eval_batch z fadd fmul kf m x in
+              let e1 = List.map (ke_eval z fadd fmul kf m) x in
+              Printf.sprintf "OK np=%d rt=%s eb=%s e1=%s" (int_of_nat (ke_nparams m)) (csv (ke_params m)) (csv (List.concat eb)) (csv (List.concat e1))
             | "POOL" ->
               let g = { pH = nat_of_int (i 1); pW = nat_of_int (i 2); pC = nat_of_int (i 3); pph = nat_of_int (i 4); ppw = nat_of_int (i 5) } in
               let no = int_of_nat (pool_nout g) in
